@@ -41,14 +41,14 @@ var optionsCmd = &factsCmd{
 	outFile: "Options.lean",
 	ns:      "BexprGen.Options",
 	schema:  optionsSchema,
-	load:    loadFixed("options.go", "bexpr.go", "filter.go", "grammar/grammar.go"),
+	load:    loadFixedPlusRoot("options.go", "bexpr.go", "filter.go", "grammar/grammar.go"),
 	extract: extractOptions,
 }
 
 func runOptions(args []string) int { return optionsCmd.run(args) }
 
 func extractOptions(files map[string]*srcFile) (map[string]lval, []string) {
-	op, bx, fl, gr := files["options.go"], files["bexpr.go"], files["filter.go"], files["grammar/grammar.go"]
+	op, fl, gr := files["options.go"], files["filter.go"], files["grammar/grammar.go"]
 	vals := map[string]lval{}
 
 	// a, b. setters, setterBodies
@@ -65,7 +65,8 @@ func extractOptions(files map[string]*srcFile) (map[string]lval, []string) {
 	vals["setterBodies"] = lKeyed(bodies)
 
 	// c. defaults (of the function getOpts starts from, whatever its name), optionsFields
-	getOpts := findFn("getOpts", op)
+	root := rootFiles(files, "options.go", "bexpr.go", "filter.go")
+	getOpts := findFn("getOpts", root...)
 	skipsNil, defaultsFn, defaultsLit := getOptsShape(getOpts)
 	fields, haveFields := structFields(op, "options")
 	switch {
@@ -77,7 +78,7 @@ func extractOptions(files map[string]*srcFile) (map[string]lval, []string) {
 	case defaultsFn == "":
 		vals["defaults"] = lPairs([][2]string{{unk("getOpts does not start with `opts := F()` or `opts := options{...}`"), unk("missing")}})
 	default:
-		vals["defaults"] = lPairs(readDefaults(defaultsFn, findFn(defaultsFn, op, bx, fl), fields))
+		vals["defaults"] = lPairs(readDefaults(defaultsFn, findFn(defaultsFn, root...), fields))
 	}
 	if haveFields {
 		vals["optionsFields"] = lPairs(fields)
@@ -90,9 +91,9 @@ func extractOptions(files map[string]*srcFile) (map[string]lval, []string) {
 	vals["getOptsSkipsNil"] = lBool(skipsNil)
 
 	// e, f. CreateEvaluator
-	ce := findFn("CreateEvaluator", bx)
+	ce := findFn("CreateEvaluator", root...)
 	vals["createPlumbing"] = lPairs(createPlumbing(ce))
-	fwd, call, errFirst := createParse(ce, []*srcFile{bx, op, fl})
+	fwd, call, errFirst := createParse(ce, root)
 	vals["createForwardsMax"] = lStrs(fwd)
 	vals["createParseCall"] = lStrs(call)
 	vals["createErrCheckBeforeAssert"] = lBool(errFirst)
